@@ -2,15 +2,17 @@
    process-wide, thread-local and interior-mutable state and of unsafe code, keyed by
    (module area = first path component under src/, kind) and sorted; identifiers and line
    numbers are deliberately absent, so a rename is harmless and a new static / cache / lazily
-   built table / Cell|Mutex|Atomic field / unsafe block changes [items].
+   built table / Cell|Mutex|Atomic field / unsafe block, and a new read of ambient process state
+   (file system, environment, clock, process, randomness; hash-map iteration on the parse path)
+   changes [items].
    This committed copy is a snapshot so that a fresh clone builds. *)
 From Coq Require Import List String.
 Import ListNotations.
 Local Open Scope string_scope.
-Inductive kind := StaticLazyLock | StaticMut | StaticInterior | StaticPlain | ThreadLocal | MacroLazy | FieldCell | FieldSync | UnsafeBlock | UnsafeFn | UnsafeImpl.
+Inductive kind := StaticLazyLock | StaticMut | StaticInterior | StaticPlain | ThreadLocal | MacroLazy | FieldCell | FieldSync | UnsafeBlock | UnsafeFn | UnsafeImpl | AmbientFs | AmbientEnv | AmbientTime | AmbientProcess | AmbientRandom | HashIteration.
 Definition kind_eqb (a b : kind) : bool :=
   match a, b with
-  | StaticLazyLock, StaticLazyLock | StaticMut, StaticMut | StaticInterior, StaticInterior | StaticPlain, StaticPlain | ThreadLocal, ThreadLocal | MacroLazy, MacroLazy | FieldCell, FieldCell | FieldSync, FieldSync | UnsafeBlock, UnsafeBlock | UnsafeFn, UnsafeFn | UnsafeImpl, UnsafeImpl => true
+  | StaticLazyLock, StaticLazyLock | StaticMut, StaticMut | StaticInterior, StaticInterior | StaticPlain, StaticPlain | ThreadLocal, ThreadLocal | MacroLazy, MacroLazy | FieldCell, FieldCell | FieldSync, FieldSync | UnsafeBlock, UnsafeBlock | UnsafeFn, UnsafeFn | UnsafeImpl, UnsafeImpl | AmbientFs, AmbientFs | AmbientEnv, AmbientEnv | AmbientTime, AmbientTime | AmbientProcess, AmbientProcess | AmbientRandom, AmbientRandom | HashIteration, HashIteration => true
   | _, _ => false
   end.
 Definition items : list (string * kind) := [
